@@ -29,15 +29,62 @@ pub fn drive(args: &[String]) {
             p = Gen::new(&mut rng, prof.clone()).program();
             tries += 1;
         }
+        let mut expect_cerr = None;
+        if profile == "cerrors" {
+            let (kind, fi, path) = plant_compile_error(&mut p, &mut rng);
+            let pj = p.to_json();
+            expect_cerr = Some(json!({"kind": kind, "at": {"ns": pj["fns"][fi]["ns"], "f": pj["fns"][fi]["fi"], "p": path}}));
+        }
         let pj = json!({"id": id, "profile": profile, "prog": p.to_json()});
         w.begin(id, &pj);
         let obs = match guarded(|| observe(&p, &cfg)) {
             Ok(o) => o,
             Err(msg) => json!({"st": "panic", "kind": msg, "globals": {}, "log": [], "trace": []}),
         };
-        w.end(record(id, &profile, &p, obs, false));
+        let mut rec = record(id, &profile, &p, obs, profile == "errors");
+        if let Some(e) = expect_cerr {
+            rec["expect_cerr"] = e;
+        }
+        w.end(rec);
     }
     w.finish();
+}
+
+/// plant one card the compiler must reject; returns (error kind, [function position, path])
+fn plant_compile_error(p: &mut P, rng: &mut Rng) -> (String, usize, Vec<u64>) {
+    // `sub`: the failing card is this child of the planted statement
+    let (kind, bad, sub): (&str, C, Option<u64>) = match rng.below(4) {
+        0 => ("InvalidJump", call("no_such_function", vec![]), None),
+        1 => ("InvalidJump", setg("g0", named("Function", "no.such.fn", vec![])), Some(0)),
+        2 => ("EmptyVariable", setv("", int(1)), None),
+        _ => ("EmptyVariable", setg("", int(1)), None),
+    };
+    let fi = rng.below(p.fns.len());
+    let body = &mut p.fns[fi].body;
+    let pos = rng.below(body.len() + 1);
+    // sometimes go one level down into a block / loop body / branch
+    if pos < body.len() && rng.chance(1, 2) {
+        let st = &mut body[pos];
+        let slot = match st.k {
+            "IfTrue" | "IfFalse" | "While" | "Repeat" | "ForEach" => Some(1),
+            "IfElse" => Some(1 + rng.below(2)),
+            _ => None,
+        };
+        if let Some(ci) = slot {
+            if st.c[ci].k == "CompositeCard" {
+                let n = st.c[ci].c.len();
+                let q = rng.below(n + 1);
+                st.c[ci].c.insert(q, bad);
+                let mut path = vec![pos as u64, ci as u64, q as u64];
+                path.extend(sub);
+                return (kind.to_string(), fi, path);
+            }
+        }
+    }
+    body.insert(pos, bad);
+    let mut path = vec![pos as u64];
+    path.extend(sub);
+    (kind.to_string(), fi, path)
 }
 
 /// cards-run <cases.ndjson> (lines {id, prog}) -> RESULT lines carrying the full record
